@@ -384,6 +384,26 @@ def run(pid, tier, seed, res, p_sub=None, p_flag=None, only=None):
                         sig = dict(f12=True)
                 for p in props_:
                     res.hit(p, "monitor", msg, dict(base, kind="monitor", signature=sig))
+            if r["ctl"] is not None and r["ctl"].cfgs and r["impl"][0] in ("ok", "raise"):
+                # the independent monitors of the scheduler properties on this run too (values received,
+                # entry counts, ordering, bounds): the describing functions here have keyword arguments,
+                # indexing and nesting, which the K-sched cases do not
+                tr = list(r["ctl"].trace)
+                full, curf = [], None
+                for ev_ in tr:
+                    if ev_[0] == "BEGIN":
+                        curf = []
+                        full.append(curf)
+                    elif curf is not None:
+                        curf.append(ev_)
+                try:
+                    segs_ = sched_cases.segments(tr, r["ctl"])
+                    if segs_ and full:
+                        labs_, end_ = sched_cases.to_labels(segs_[0]["evs"])
+                        for prop_, msg_ in sched_cases.monitors(segs_[0]["cfg"], full[0], labs_, end_):
+                            res.hit(prop_, "monitor", msg_, dict(base, kind="monitor"))
+                except sched_cases.Unparsable:
+                    pass
             if r["ctl"] is not None and r["ctl"].broken:
                 res.hit(pid, "divergence", "controller could not drive the run: " + r["ctl"].broken, dict(base, kind="controller"))
             m = model_items(prog, r)
